@@ -177,4 +177,60 @@ def midMeanSpec (w : α) (evs : List (List (Option α × α))) : α :=
 
 end spec
 
+/-! ### The `Histogram` object as `BulkObservables` uses it, and the few other primitives the GENERATED
+code (`Gen/Bulk.lean`, written by `harness/translate/bulk.py` from the current source) is expressed in.
+A `Histogram` is its edges together with `histograms_` (the current histogram is the last row); each
+method is the corresponding operation above applied to that state.  (Appended for tie T; nothing above
+was changed.) -/
+
+structure HObj (α : Type) where
+  edges : List α
+  rows : List (List α)
+
+/-- apply `f` to the last element (`histograms_[-1]`) -/
+def modifyLast {β : Type} (f : β → β) : List β → List β
+  | [] => []
+  | [x] => [f x]
+  | x :: y :: r => x :: modifyLast f (y :: r)
+
+/-- `self.particle_objects[i]` (`ReadOnlyList.__getitem__` = list indexing; `IndexError` outside) -/
+def getEv {β : Type} (evs : List (List β)) (i : Nat) : Except Err (List β) :=
+  match evs[i]? with
+  | some e => .ok e
+  | none => .error .index
+
+section hobj
+variable {α : Type} [Add α] [Sub α] [Mul α] [Div α] [Neg α] [NatCast α] [LE α] [DecidableLE α]
+
+/-- `Histogram(bin_properties)`; `edges` = the edges the constructor derives from `bin_properties` -/
+def HObj.new (edges : List α) : HObj α := ⟨edges, [zeros (nbins edges)]⟩
+
+/-- `hist.bin_width()` -/
+def HObj.binWidth (h : HObj α) : List α := widths h.edges
+
+/-- `hist.add_value(v)`; `none` = NaN → `ValueError` -/
+def HObj.addValue (h : HObj α) : Option α → Except Err (HObj α)
+  | none => .error .value
+  | some v => .ok { h with rows := modifyLast (fun r => Bulk.addValue h.edges r v) h.rows }
+
+/-- `hist.add_histogram()` -/
+def HObj.addHistogram (h : HObj α) : HObj α := { h with rows := h.rows ++ [zeros (nbins h.edges)] }
+
+/-- `hist.average()` -/
+def HObj.average (h : HObj α) : HObj α := { h with rows := [Bulk.average (nbins h.edges) h.rows] }
+
+/-- `hist.scale_histogram(array)` -/
+def HObj.scaleHistogram (h : HObj α) (factors : List α) : HObj α :=
+  { h with rows := modifyLast (fun r => scale r factors) h.rows }
+
+/-- numpy `scalar / array` -/
+def sdivV (s : α) (v : List α) : List α := v.map (fun x => s / x)
+
+/-- a test made of order comparisons with a quantity that may be NaN: false for NaN -/
+def onNum (p : α → Bool) : Option α → Bool
+  | none => false
+  | some y => p y
+
+end hobj
+
 end SparkxVerif.Bulk
